@@ -866,13 +866,23 @@ func (s *clientSocket) _sendBuffers(volatile, forceSend bool, ackID *uint64, buf
 		// multiplexed on it) if it receives a packet for a namespace that is not joined.
 		// So packets emitted while the CONNECT is pending are buffered, and are flushed
 		// by emitBuffered once the CONNECT reply arrives.
+		// The decision "send now or park" and the flush of the parked packets (emitBuffered) exclude
+		// each other under sendBufferMu, and a packet is sent directly only when nothing is parked:
+		// a packet emitted after the state became Connected but before emitBuffered has flushed
+		// the buffer is parked behind the older packets and leaves with them, in order. Otherwise
+		// it would overtake the packets the same goroutine emitted before the CONNECT reply.
+		if forceSend {
+			s.manager.packet(packets...)
+			return
+		}
+		s.sendBufferMu.Lock()
+		defer s.sendBufferMu.Unlock()
 		s.stateMu.RLock()
-		sendImmediately := s.state == clientSocketConnStateConnected
+		connected := s.state == clientSocketConnStateConnected
 		s.stateMu.RUnlock()
-		if sendImmediately || forceSend {
+		if connected && len(s.sendBuffer) == 0 {
 			s.manager.packet(packets...)
 		} else if !volatile {
-			s.sendBufferMu.Lock()
 			buffers := make([]sendBufferItem, len(packets))
 			for i := range buffers {
 				buffers[i] = sendBufferItem{
@@ -881,7 +891,6 @@ func (s *clientSocket) _sendBuffers(volatile, forceSend bool, ackID *uint64, buf
 				}
 			}
 			s.sendBuffer = append(s.sendBuffer, buffers...)
-			s.sendBufferMu.Unlock()
 		} else {
 			s.debug.Log("Packet is discarded")
 		}
